@@ -48,6 +48,12 @@ def plan(tier, seed):
             specs.append(s)
         jobs.append({"kind": "rig", "hashseed": rng.randrange(1000),
                      "specs": specs})
+    # zero swaps with wire fencing in [0+], a narrow band and jumping frames
+    # (driven through the real run_md by the C11 direct harness)
+    for j in range(8 if tier == "quick" else 64):
+        jobs.append({"kind": "zswf", "wf0": True, "hashseed": 0,
+                     "seed": rng.randrange(2 ** 31),
+                     "count": 60 if tier == "quick" else 150})
     grid = []
     for L_old in range(3, 11 if tier == "quick" else 16):
         for b in range(2, 9 if tier == "quick" else 12):
@@ -89,7 +95,7 @@ def _mons(spec, cdir):
                                 f"move returned accept={acc} with status "
                                 f"{status} (md_items status {out['status']})")
             MoveMonitor.after_run_md(self, rig, out)
-    return [M(check_zero_swap=False)]
+    return [M(check_zero_swap=False, subcycles=spec.get('subcycles', 1))]
 
 
 def _nontrivial(rig, spec, mons):
@@ -205,6 +211,9 @@ def _threshold(job, scratch):
 
 
 def work(job, scratch):
+    if job["kind"] == "zswf":
+        from vf.checks import c11
+        return c11._direct(job, scratch)
     if job["kind"] == "threshold":
         return _threshold(job, scratch)
     return F.generic_work(job, scratch, _mons, _nontrivial)
